@@ -9,6 +9,15 @@ from mc.checks import c05
 
 LEVEL = "model_checking"
 
+def _ladder(k):
+    out, src = [], "%r9"
+    for d in range(k):
+        dst = ("%r12", "%r13")[d % 2]
+        out += ["opsd %s, %%r10" % src, "opsd %s, %%r11" % src, "tssd %%r10, %%r11, %s" % dst]
+        src = dst
+    return out
+
+
 # kernels (indices into the C05 x86 alphabet are resolved by text below)
 KERNELS = {
     # four single-instruction cycles, two pairs of equal latency (ties); the last line is a root
@@ -21,6 +30,14 @@ KERNELS = {
     # diamond: two cycles of equal latency that share their first instruction, with the two
     # branch instructions in different worker sections
     "k7": ["tssd %r10, %r11, %r8", "opsd %r8, %r10", "opsd %r8, %r11", "tie %r12, %r12"],
+    # five single-instruction cycles with empty lines in between: the line numbers of the kernel
+    # have gaps (1, 3, 4, 7, 8), every instruction is the last one of some worker section
+    "k8": ["opbs %r8, %r8", "", "tie %r9, %r9", "opbs %r10, %r10", "", "", "tie %r11, %r11",
+           "opbs %r12, %r12"],
+    # a ladder of ten diamonds behind a two-instruction head r, a: 1024 long cycles and the short
+    # cycle {r, a}; r and a each start 1025 dependency paths, the short one enumerated last
+    # (results handed over in pieces must still be complete)
+    "k9": ["tssd %r9, %r13, %r8", "opsd %r8, %r9"] + _ladder(10),
 }
 
 
@@ -100,7 +117,15 @@ def explore_config(item):
         lcd, timed_out, rep = obs
         outcomes.add(lcd)
         if lcd != ref:
-            bad.append(("result", choices, "parallel result %r != sequential %r" % (lcd, ref)))
+            if len(ref) > 20:
+                missing = [k for k in ref if k not in set(lcd)]
+                extra = [k for k in lcd if k not in set(ref)]
+                bad.append(("result", choices, "parallel result has %d cycles, sequential %d; "
+                            "missing e.g. %r, additional e.g. %r"
+                            % (len(lcd), len(ref), [m[0] for m in missing[:3]],
+                               [m[0] for m in extra[:3]])))
+            else:
+                bad.append(("result", choices, "parallel result %r != sequential %r" % (lcd, ref)))
         elif rep != ref_rep:
             bad.append(("report", choices, "report differs from the single-process report"))
         if timed_out:
@@ -142,8 +167,10 @@ try:
     c05.setup(ctx, "c16conf")
     out = {}
     for kname, texts in c16.KERNELS.items():
+        if kname in %(skip)r:
+            continue
         ref, _ = c16.sequential(texts)
-        for cpu in %(cpus)r:
+        for cpu in (%(cpus)r if kname != "k9" else [3]):
             kd.cpu_count = lambda c=cpu: c
             kd.KernelDG.INSTRUCTION_THRESHOLD = 1
             fam = c05._FAM["x86"]
@@ -160,11 +187,13 @@ finally:
 
 
 def conformance(ctx, cpus):
-    code = CONF_SCRIPT % {"verif": core.VERIF, "home": ctx.home, "cpus": cpus}
+    # the 1024-cycle kernel costs ~25 s per analysis: real processes only in the thorough tier
+    skip = [] if ctx.thorough else ["k9"]
+    code = CONF_SCRIPT % {"verif": core.VERIF, "home": ctx.home, "cpus": cpus, "skip": skip}
     env = dict(os.environ)
     env["PYTHONHASHSEED"] = "0"
     p = subprocess.run([sys.executable, "-c", code], capture_output=True, text=True, env=env,
-                       timeout=600)
+                       timeout=900)
     import json
     for line in p.stdout.splitlines():
         if line.startswith("CONF"):
@@ -193,21 +222,29 @@ def run(ctx):
     res = core.Result()
     c05.setup(ctx, "c16")
     for texts in KERNELS.values():
-        dgfam.warm_parse_cache("x86", texts)
+        dgfam.warm_parse_cache("x86", [t for t in texts if t])
     items = []
     plan = [("k4", 2, -1, None), ("k4", 3, -1, None), ("k4", 1, -1, None), ("k4", 7, -1, 2),
             ("k5", 2, -1, None), ("k5", 3, -1, None), ("k5", 16, -1, 1),
             ("k6", 2, -1, None), ("k6", 3, -1, 2 if not ctx.thorough else None),
             ("k4", 2, 50, 2 if not ctx.thorough else None), ("k5", 3, 50, 2), ("k6", 5, -1, 2),
-            ("k7", 2, -1, None), ("k7", 3, -1, None), ("k7", 4, -1, None)]
+            ("k7", 2, -1, None), ("k7", 3, -1, None), ("k7", 4, -1, None),
+            ("k8", 1, -1, None), ("k8", 2, -1, None), ("k8", 3, -1, 3), ("k8", 5, -1, 2),
+            ]
+    # one schedule each is enough here: what is lost does not depend on the order
+    plan = [("k9", 3, -1, 0)] + plan
     if ctx.thorough:
+        plan += [("k9", 16, -1, 0), ("k9", 1, -1, 0)]
         plan += [("k6", 9, -1, 2), ("k5", 5, -1, 3), ("k6", 3, 50, 3), ("k4", 3, 50, 3)]
     for kname, cpu, timeout, bound in plan:
-        fl = first_level(kname, cpu, timeout, 2)
+        fl = first_level(kname, cpu, timeout, 0 if kname == "k9" else 2)
         # shard: one item per first-level prefix
         for pre in fl:
             items.append((kname, cpu, timeout, bound, [pre]))
-    out = core.pmap(explore_config, core.rotate(items, ctx.seed), chunk=1)
+    # the expensive configurations first
+    heavy = [it for it in items if it[0] == "k9"]
+    items = heavy + core.rotate([it for it in items if it[0] != "k9"], ctx.seed)
+    out = core.pmap(explore_config, items, chunk=1)
     per_cfg = {}
     raw_total = 0
     for (kname, cpu, timeout, bound, first), (n, bad, nout, maxlen, nraw) in out:
